@@ -4,6 +4,14 @@ from props import ModuleCheck, T, bundled
 CS_CLAUSES_C01 = ["C01_ShareValue", "C01_LegRule", "C01_ExactInMax", "C01_ExactOutTight"]
 CS_CLAUSES_C02 = ["C02_SwapSender", "C02_SwapRecipient", "C02_Frame", "C02_Bounds", "C02_AddTakesAtMost",
                   "C02_RemoveGivesAtLeast", "C02_Supply", "C02_Conservation", "Rejected_NoEffect"]
+# history twins (audit of round 7): the same clause text evaluated with the pool registry and the parameters
+# ACCORDING TO THE HISTORY (ghosts reg / par: a pool is what it was when it first appeared) instead of the
+# module's own registry as projected in the state - a defect that rewrites, drops or duplicates a registry
+# entry cannot make them vacuous or "equally wrong on both sides"; C02_PoolFresh: no two pools that ever
+# existed share a liquidity denom or an escrow, an accepted message opens at most the pool it names
+CS_CLAUSES_C01 += [c + "H" for c in CS_CLAUSES_C01]
+CS_CLAUSES_C02 += ["C02_SwapSenderH", "C02_SwapRecipientH", "C02_FrameH", "C02_BoundsH", "C02_AddTakesAtMostH",
+                   "C02_RemoveGivesAtLeastH", "C02_SupplyH", "C02_PoolFresh"]
 
 CS_BASE = "users=3,tokens=2,fee=3,taxnum=2,taxden=5"
 # fee 3/10 + unilateral 2/10 (coarse: every rounding visible), and the default-like 3/1000 + 2/1000
